@@ -108,6 +108,19 @@ def run_shard(shard, ctx):
                 except Exception as e:
                     col.violation('C04/%s/raised' % which, '%s: %s' % (type(e).__name__, e), case); continue
                 col.transitions += len(batches) + 2
+                if len(seq) == 1 and ddt == ddts[0]:
+                    # memory layout of a batch is not part of its value: Fortran-ordered and strided batches give the same result
+                    tr0, da0 = batches[0]
+                    wt = np.zeros((tr0.shape[0], 2 * tr0.shape[1]), tr0.dtype); wt[:, ::2] = tr0
+                    for vn, (tv, dv) in {'fortran': (np.asfortranarray(tr0), np.asfortranarray(da0)), 'strided': (wt[:, ::2], da0)}.items():
+                        d3 = D[which](partitions=parts, precision=prec) if parts is not None else D[which](precision=prec)
+                        try:
+                            d3.update(tv, dv); g3 = d3.compute()
+                        except Exception as e:
+                            col.violation('C04/%s/layout-raised' % which, '%s batch: %s: %s' % (vn, type(e).__name__, e), dict(case, view=vn)); continue
+                        col.transitions += 2
+                        if g3.shape != got.shape or not np.array_equal(g3, got, equal_nan=True):
+                            col.violation('C04/%s/layout' % which, '%s on a %s batch differs from the result on the C-contiguous batch' % (which, vn), dict(case, view=vn))
                 if got.shape != ref.shape:
                     col.violation('C04/%s/shape' % which, 'result shape %s expected %s' % (got.shape, ref.shape), case); continue
                 if not np.array_equal(got, got2, equal_nan=True):
